@@ -26,7 +26,67 @@ PROPS = {
             "valid designs that Hdl21 refuses to export are counted (probe valid_design_rejected_*) but are not C01 violations",
         ],
     },
+    "C07": {
+        "workloads": [("hist", "c07", 2500, 40000, None)],
+        "rule": (
+            "one case = a session: a generated DAG library of 2-6 modules with shared sub-modules, bundle ports and port references, "
+            "interleaved with elaborate / to_proto / netlist calls on single targets and lists, repeated, plus refused late edits; "
+            "non-trivial = >= 2 calls and >= 1 module touched by >= 2 calls; distinct = distinct (library shape hash, call sequence, schedule trace digest)"
+        ),
+        "assumptions": [
+            "the fresh-process oracle is a fork of a pristine template process (hdl21 imported, nothing built)",
+            "valid designs only; a session whose design Hdl21 refuses to build is discarded and counted",
+            "sampling of histories, not the exhaustive-for-five-modules reading of the quantifier",
+        ],
+    },
+    "C08": {
+        "workloads": [("hist", "c08", 2500, 40000, None)],
+        "rule": (
+            "one case = a C07 session with 0-2 injected failures (fault pass at a drawn pass position and module; exception inside a subclassed "
+            "rewriting pass between pop and reconnect; planted width fault with later repair) each followed by drawn continuations "
+            "(retry unchanged, remove the cause and retry, unrelated design, sibling design); non-trivial = at least one call actually failed; "
+            "distinct = distinct (library shape, call sequence, fault plan, schedule trace digest)"
+        ),
+        "assumptions": [
+            "fresh-process oracle = fork of the pristine template, design as the script describes it at that point, default elaborator",
+            "faults are injected where the property says exceptions can arise: custom pass lists, overridable pass methods, design errors",
+            "a design containing an offending module may be refused forever; it must never be exported differently from fresh, nor report a circular dependency",
+        ],
+    },
+    "C12": {
+        "workloads": [("order", "c12", 1800, 30000, None)],
+        "post": "c12_layer2",
+        "rule": (
+            "one case = a generated design program built and exported in 4-6 pristine children that differ only in the scheduler's "
+            "set-iteration policy / key stream, junk allocation and an unrelated earlier elaboration; compared: serialized package bytes and "
+            "spice / spectre / verilog netlist text; non-trivial = the children realised >= 2 distinct schedule traces (choice points over >= 2 elements); "
+            "distinct = distinct (program shape hash, set of schedule trace digests). Layer 2 re-runs a sample in real interpreters under 8-24 PYTHONHASHSEED values"
+        ),
+        "assumptions": [
+            "an order obtained by sorting a set's elements on arbitrary per-element keys is an order some process can exhibit (keys play the role of hashes)",
+            "the attribute seam sees every set stored on a connectable object; sets local to a function are only visible to layer 2",
+            "layer 2 runs with a minimal fixed environment; ASLR is left on there, so layer 2 also samples address-space layouts",
+        ],
+    },
 }
+
+
+def c12_layer2(tier, verif_seed):
+    """Layer 2 of C12: real interpreters, real sets, different hash seeds and allocation."""
+    from profiles import order
+
+    n_prog = 150 if tier == "quick" else 1200
+    n_int = 8 if tier == "quick" else 24
+    seeds = [hash64(verif_seed, "c12-layer2", i) % (1 << 48) for i in range(n_prog)]
+    hash_seeds = [0] + [1 + hash64(verif_seed, "hs", i) % 4000000000 for i in range(n_int - 1)]
+    findings = []
+    compared = 0
+    for lo in range(0, n_prog, 200):
+        results, f = order.layer2_run(seeds[lo : lo + 200], hash_seeds, verif_seed)
+        findings += f
+        compared += sum(1 for v in results[0][2].values() if not isinstance(v.get("proto", []), list) and "build_exc" not in v)
+    cov = {"layer2": {"real_interpreters": n_int, "hash_seeds": hash_seeds[:8], "programs": n_prog, "programs_exported_and_compared": compared, "divergences": len(findings)}}
+    return findings, cov
 
 
 def load_known():
@@ -124,8 +184,27 @@ def run_check(prop, tier, verif_seed, runs_override=None):
             main.ops_hist[kk] = main.ops_hist.get(kk, 0) + vv
     main.t0 = t0
     main.samples = main.samples[:4]
+    post_cov = {}
+    if cfg.get("post"):
+        try:
+            pf, post_cov = globals()[cfg["post"]](tier, verif_seed)
+        except procs.ChildFailure as e:
+            print(f"HARNESS-ERROR property={prop} {e}")
+            return 2
+        print(f"[{prop}] post stage {cfg['post']}: {json.dumps(post_cov)[:300]}", flush=True)
+        if pf and first_violation is None:
+            f = pf[0]
+            path = runner.write_replay(prop, f"layer2-{f['seed']}", {"property": prop, "profile": "order-layer2", "finding": f, "how_to_replay": "PYTHONHASHSEED=<a> vs <b> /venv/bin/python -c order.LAYER2_SCRIPT '[seed]' <junk>", "seed": f["seed"]})
+            print(f"[{prop}] {f['detail'][0]}")
+            print(f"VIOLATION property={prop} replay={path}", flush=True)
+            main.violations.append((0, f["seed"], f))
+            post_violation = True
+        else:
+            post_violation = False
+    else:
+        post_violation = False
     harness = list(main.harness_errors)
-    rc = 0
+    rc = 1 if post_violation else 0
     if first_violation is not None:
         pname, mode, opts, (idx, seed, finding) = first_violation
         path, payload = driver.report_violation(prop, pname, mode, seed, finding, opts)
@@ -137,7 +216,9 @@ def run_check(prop, tier, verif_seed, runs_override=None):
             print(f"[{prop}]   {line}")
         print(f"VIOLATION property={prop} replay={path}", flush=True)
         rc = 1
-    runner.write_evidence(main, cfg["rule"], cfg["assumptions"], extra_cov=cfg.get("extra_cov"), known=known_lines)
+    extra = dict(cfg.get("extra_cov") or {})
+    extra.update(post_cov)
+    runner.write_evidence(main, cfg["rule"], cfg["assumptions"], extra_cov=extra, known=known_lines)
     if harness:
         print(f"[{prop}] {len(harness)} harness errors, first:\n{harness[0][-1500:]}")
         if rc == 0 and len(harness) > max(3, main.runs // 200):
